@@ -231,6 +231,17 @@ pub fn tx_monitors(h: &Hist, ms: &mut MonState, b: &Obs, line: &str, res: &str, 
                 out.push(format!("mon_supply_change {} {} {}", kind, sb, sa));
             }
         }
+        // C02 (stableswap): exact D per LP token through deposits and withdrawals
+        if ok && (tx.kind == "provide" || tx.kind == "withdraw") {
+            if let (Some(pb), Some(pa)) = (pool(b, &tx.args[0]), pool(a, &tx.args[0])) {
+                if !matches!(pb.pool_type, PoolType::ConstantProduct) && (tx.kind == "withdraw" || tx.funds.len() >= 2) {
+                    let mut pb2 = pb.clone();
+                    pb2.asset_denoms = pb2.asset_denoms.iter().map(|d| h.w.cd(d)).collect();
+                    let after: Vec<String> = pa.assets.iter().map(|c| c.amount.to_string()).collect();
+                    out.push(format!("mon_ss_lp {} {} {} {} {}", pool_str(&pb2), after.len(), after.join(" "), supply_of(b, &tx.args[0]), supply_of(a, &tx.args[0])));
+                }
+            }
+        }
         if ok && tx.kind == "provide" && tx.funds.len() >= 2 {
             if let (Some(pb), Some(pa)) = (pool(b, &tx.args[0]), pool(a, &tx.args[0])) {
                 let lp = h.w.cd(&pb.lp_denom);
